@@ -115,6 +115,9 @@ def oracle(result):
         if out["r"] == "Body":
             if not out["passthrough_ok"]:
                 bad.append(("C19:arguments-changed", f"step {i}: ordinary arguments did not pass through unchanged"))
+            for t_, name_, v_ in out.get("explicit_found", []):
+                bad.append(("C19:optional-lost", f"step {i}: an optional parameter ({t_},{name_!r}) received None but the "
+                            f"explicit optional lookup in the same context, made at once, returns {v_}"))
             # compare with explicit lookups made later in the same context (C03: bindings are stable)
             for p, b in zip(deps, out["bound"]):
                 if isinstance(p["ann"], str):
@@ -128,6 +131,13 @@ def oracle(result):
                                     f"explicit lookup later returned {r2['v']}"))
                 if b is None and p["ann"][0] != "AOpt":
                     bad.append(("C19:none-for-required", f"step {i}: a non-optional parameter received None"))
+                if b is None and p["ann"][0] == "AOpt":
+                    # the explicit optional lookup would have found what the context holds right now
+                    here = s.get("probe", [])[op["c"]] if op["c"] < len(s.get("probe", [])) else None
+                    held = [v for tt, m in (here or {}).get("maps", []) if tt == t for n, v in m if n == name]
+                    if held:
+                        bad.append(("C19:optional-lost", f"step {i}: an optional parameter ({t},{name!r}) received None "
+                                    f"although the context holds {held[0]}"))
     return bad
 
 
